@@ -60,7 +60,7 @@ PTYPES = {"NP2.4": (24, 2013), "NP2.1": (21, 1030)}   # imDatPrb_type values the
 
 
 def make_recording(root, ns, rng, kind="NP2.4", n=384, sites=None, gainset=(0.5, 8192), content="random", label="probe00",
-                   encoding=None, ptype=None):
+                   encoding=None, ptype=None, fname=None):
     """root/raw_ephys_data/<label>/_spikeglx_ephysData_g0_t0.imec0.ap.{bin,meta}; sync column = sample counter.
     encoding: site table written as snsShankMap ("shank", default) or snsGeomMap ("geom"); ptype: the other imDatPrb_type
     value of the same probe kind (2013 for NP2.4, 1030 for NP2.1). Neither changes the random draws: the data are identical."""
@@ -95,7 +95,10 @@ def make_recording(root, ns, rng, kind="NP2.4", n=384, sites=None, gainset=(0.5,
         d = (base[:, None] * rng.uniform(0.5, 1.5, nc)[None, :] + rng.normal(0, 300, (ns, nc)))
         d = np.clip(np.round(d), -8000, 8000).astype(np.int16)
     d[:, -1] = (np.arange(ns) % WRAP).astype(np.int16)
-    b = metagen.write_recording(folder, "_spikeglx_ephysData_g0_t0.imec0", txt, d)
+    # fname: another name for the AP pair (<fname>.bin / <fname>.meta) - the band tag attached with an underscore, a run name that
+    # contains the letters "ap": names the reader, the converter and the reconstructor all accept
+    b = metagen.write_recording(folder, fname, txt, d, suffix="") if fname else \
+        metagen.write_recording(folder, "_spikeglx_ephysData_g0_t0.imec0", txt, d)
     return b, d, info
 
 
